@@ -277,3 +277,8 @@ func tailTruncated(b []byte) bool {
 }
 
 func countByte(s []byte, c byte) int { return bytes.Count(s, []byte{c}) }
+
+func stringsReplaceAll(s, old, new string) string {
+	return string(bytes.ReplaceAll([]byte(s), []byte(old), []byte(new)))
+}
+func bytesContains(b []byte, c byte) bool { return bytes.IndexByte(b, c) >= 0 }
